@@ -65,6 +65,7 @@ fn digest_fold(items: &[(String, Vec<u32>, Flags, Hay)]) -> Acc {
 }
 
 pub fn explore_all(run: &Run) -> (Stats, Vec<(u64, u64)>) {
+    c06::LIGHT.store(!run.thorough(), std::sync::atomic::Ordering::Relaxed);
     let (st, mut digests) = c06::explore(run);
     let f = digest_fold(&fold_part());
     digests.extend(f.digests);
